@@ -562,6 +562,7 @@ type Lemma struct {
 	Vars    []QVar
 	Body    Expr
 	Assumed bool
+	Definition bool // definitional axiom of a spec function introduced with 'define' (conservative, not an assumption)
 	Src     string
 	Props   []string
 }
@@ -594,7 +595,7 @@ var clauseKeywords = map[string]bool{
 	"func": true, "extern": true, "requires": true, "ensures": true, "modifies": true, "loop": true,
 	"invariant": true, "decreases": true, "pred": true, "props": true, "arith": true, "pure": true,
 	"trusted": true, "panics_if": true, "opt": true, "ghost": true, "lemma": true, "nosafety": true,
-	"results": true, "assume": true, "end": true, "uses": true, "hint": true, "apply": true, "ufunc": true, "fresh": true,
+	"results": true, "assume": true, "end": true, "uses": true, "hint": true, "apply": true, "ufunc": true, "fresh": true, "define": true,
 }
 
 // ParseSpecText parses the //@ lines of one file into sf.
@@ -741,6 +742,42 @@ func (sf *SpecFile) ParseSpecText(file, text string) error {
 				}
 			}
 			sf.UFuncs[uf.Name] = uf
+		case "define":
+			// define name(a T, b U) R := body   -- an opaque spec function; its definition is available to a
+			// function's proof only on request (uses name)
+			k := strings.Index(rc.rest, ":=")
+			if k < 0 {
+				return fmt.Errorf("%s:%d: define needs :=", file, rc.line)
+			}
+			head, body := strings.TrimSpace(rc.rest[:k]), strings.TrimSpace(rc.rest[k+2:])
+			op := strings.Index(head, "(")
+			cl := strings.LastIndex(head, ")")
+			if op < 0 || cl < op {
+				return fmt.Errorf("%s:%d: bad define head", file, rc.line)
+			}
+			uf := &UFunc{Name: strings.TrimSpace(head[:op]), Result: strings.TrimSpace(head[cl+1:])}
+			var names []string
+			var binds []string
+			ps := strings.TrimSpace(head[op+1 : cl])
+			if ps != "" {
+				for _, a := range strings.Split(ps, ",") {
+					f := strings.Fields(a)
+					if len(f) != 2 {
+						return fmt.Errorf("%s:%d: bad define parameter %q", file, rc.line, a)
+					}
+					uf.Params = append(uf.Params, QVar{f[0], f[1]})
+					names = append(names, f[0])
+					binds = append(binds, f[0]+" "+f[1])
+				}
+			}
+			sf.UFuncs[uf.Name] = uf
+			app := uf.Name + "(" + strings.Join(names, ", ") + ")"
+			src := "forall " + strings.Join(binds, ", ") + " :: {" + app + "} " + app + " == (" + body + ")"
+			e, err := ParseExpr(src)
+			if err != nil {
+				return fmt.Errorf("%s:%d: %v", file, rc.line, err)
+			}
+			sf.Lemmas = append(sf.Lemmas, &Lemma{Name: uf.Name, Src: src, Body: e, Assumed: true, Definition: true})
 		case "lemma":
 			// lemma name [assumed] : forall ... :: body
 			k := strings.Index(rc.rest, ":")
